@@ -4,8 +4,8 @@
 # On success the change is stored as /verif/seeded/Cxx-V/{patch.diff,demo.*,meta.json}.
 set -u
 id="$1"; v="$2"
-src="/tmp/seed-out/$id/$v"; wt="/tmp/wt-$id"; out="/verif/seeded/$id-$v"
-log="/tmp/seed-out/$id/$v/validate.log"; : > "$log"
+SO="${SEEDSRC:-/tmp/seed-out}"; src="$SO/$id/$v"; wt="${WTPREFIX:-/tmp/wt-}$id"; out="/verif/seeded/$id-$v"
+log="$src/validate.log"; : > "$log"
 export CARGO_NET_OFFLINE=true
 head=$(git -C /repo rev-parse HEAD)
 git -C "$wt" checkout -q --detach "$head" 2>>"$log" || { echo "$id-$v: cannot checkout"; exit 2; }
@@ -26,7 +26,7 @@ if ! git -C "$wt" apply "$src/patch.diff" 2>>"$log"; then
   git -C "$wt" apply --3way "$src/patch.diff" >>"$log" 2>&1 || { echo "$id-$v: PATCH DOES NOT APPLY to $head"; git -C "$wt" reset -q --hard "$head"; exit 1; }
   git -C "$wt" reset -q
 fi
-git -C "$wt" diff -- src > /tmp/seed-out/$id/$v/patch.current.diff
+git -C "$wt" diff -- src > $src/patch.current.diff
 echo "== suite with patch" >>"$log"
 ( cd "$wt" && cargo test --workspace --no-fail-fast --offline >>"$log" 2>&1 ); suite=$?
 echo "== demo with patch" >>"$log"; run_demo; mut=$?
@@ -36,7 +36,7 @@ if [ $base -eq 0 ] && [ $suite -eq 0 ] && [ $mut -ne 0 ]; then verdict="confirme
 echo "$id-$v: baseline_demo_rc=$base suite_with_patch_rc=$suite demo_with_patch_rc=$mut => $verdict"
 if [ "$verdict" = confirmed ]; then
   mkdir -p "$out"
-  cp /tmp/seed-out/$id/$v/patch.current.diff "$out/patch.diff"
+  cp $src/patch.current.diff "$out/patch.diff"
   [ -f "$src/demo.rs" ] && cp "$src/demo.rs" "$out/demo.rs"; [ -f "$src/demo.py" ] && cp "$src/demo.py" "$out/demo.py"
   python3 - "$src/meta.json" "$out/meta.json" "$id" "$v" "$head" "$base" "$suite" "$mut" <<'PY'
 import json,sys
